@@ -112,8 +112,15 @@ class Entity(object):
         if self.supers:
             h += '\n  SUBTYPE OF (' + ', '.join(self.supers) + ')'
         o = [h + ';']
+        groups = []
         for a in self.attrs:
-            o.append('  %s : %s%s;' % (a.name, 'OPTIONAL ' if a.optional else '', a.type.text()))
+            decl = '%s%s' % ('OPTIONAL ' if a.optional else '', a.type.text())
+            if getattr(self, 'merge_decls', False) and groups and groups[-1][1] == decl and '\\' not in a.name and '\\' not in groups[-1][0][-1]:
+                groups[-1][0].append(a.name)       # `a, b : OPTIONAL T;` declares several attributes in one clause
+            else:
+                groups.append(([a.name], decl))
+        for names, decl in groups:
+            o.append('  %s : %s;' % (', '.join(names), decl))
         if self.derived:
             o.append('DERIVE')
             for d in self.derived:
